@@ -7,13 +7,13 @@ import numpy as np
 _DS_COUNT = [0]
 
 
-def inject_dataset(in_data, out_data, name=None):
+def inject_dataset(in_data, out_data, name=None, out_dtype=float):
     """Register a Dataset subclass in vopy.datasets.dataset's globals (that is where
     get_dataset_instance resolves names) holding exactly the given arrays (no scalers)."""
     import vopy.datasets.dataset as dsmod
 
     in_data = np.array(in_data, dtype=float)
-    out_data = np.array(out_data, dtype=float)
+    out_data = np.array(out_data, dtype=out_dtype)
     if name is None:
         _DS_COUNT[0] += 1
         name = f"VerifDS_{_DS_COUNT[0]}"
